@@ -99,7 +99,9 @@ CHECKS["C04"] = _srv(
     "2-4 scripted clients with colliding attributes (same IP other port, same user on several 5-tuples, identical channel numbers, "
     "peers, reused transaction ids) interleave requests and data; after every step only the acting client's model state and "
     "library listing may change, responses go only to the requester, relayed traffic only to the owner of the relayed address, "
-    "AllocationCount equals the number of live 5-tuples and a second Allocate gets 437.",
+    "AllocationCount equals the number of live 5-tuples and a second Allocate gets 437. Relational (metamorphic) form on top: the "
+    "history is projected onto one client (all other clients' steps removed, elapsed time kept), re-run in a fresh world, and "
+    "that client's normalised observation log (responses, indications, ChannelData, emissions of its relay) must be identical.",
     "non-trivial = >=2 clients hold allocations and at least one cross-probe (other client's channel number, reused transaction id, "
     "other user's credentials on a live 5-tuple, a 437, or an unauthorised peer arrival while another authorisation is live)",
     _SRV_NOTE)
